@@ -128,6 +128,16 @@ class LiquidError(Exception):
 class LiquidInterrupt(Exception):  # noqa: N818
     """Loop interrupt exception."""
 
+    def __init__(
+        self,
+        *args: object,
+        token: TokenT | None = None,
+        template_name: str | None = None,
+    ):
+        super().__init__(*args)
+        self.token = token
+        self.template_name = template_name
+
 
 class StopRender(Exception):  # noqa: N818
     """Template inheritance interrupt.
